@@ -1,6 +1,6 @@
 """C12 - the enfolding storage cache stays coherent with its backend."""
 import proto
-from common import capped, Failure, Outcome, Broken
+from common import capped, Failure, Outcome, Broken, listing_diff_is_order_only
 from gen import pick
 import stores
 import polcase
@@ -288,12 +288,25 @@ def run(ctx):
             mo = m.split(' || ')[0].split(' | ')
             if mo != outs:
                 i = next((j for j, (a, b) in enumerate(zip(outs, mo)) if a != b), min(len(outs), len(mo)))
+                # what the property prescribes: the policies returned, and that a read the populated cache can answer does
+                # not touch the backend.  Not prescribed: the listing order of a backend (which policy lands on which
+                # page), and touching the backend less often than the model predicts
+                strong = len(outs) != len(mo)
+                for a, b in zip(outs, mo):
+                    if a == b:
+                        continue
+                    (ba, fa), (bb, fb) = a.rsplit(' ', 1), b.rsplit(' ', 1)
+                    if ba != bb and not listing_diff_is_order_only(ba, bb):
+                        strong = True
+                    if ba == bb and fa == 'T' and fb == 'F':
+                        strong = True
                 f = Failure('disagreement', dict(desc, first_difference={'op_index': i, 'impl': outs[i] if i < len(outs) else None,
                                                                         'model': mo[i] if i < len(mo) else None}),
                             outs[max(0, i - 2):i + 1], mo[max(0, i - 2):i + 1],
                             'output / backend-touched flag differs from the model of EnfoldCache at operation %d' % i,
                             'Vakt.C12 (Enfold.step)', line=line, size=i)
                 f.signature = 'model:' + desc['backend']
+                f.weak = not strong
                 out.failures.append(f)
         out.nontriv(line)
         if len(out.samples) < 3 and desc['fail_at_mutation']:
